@@ -140,7 +140,15 @@ func syncRun(w *bufio.Writer, rng *rand.Rand, run int, o syncOpts, stats map[str
 			n.pool = nil
 			injected = false
 		}
-		n.op(fmt.Sprintf("R %d", n.lastTS), func() { n.d.Reset(n.lastTS) })
+		// the re-initialisation replays the payloads kept for the new height and may decide it at once: the application then
+		// re-initialises the node again
+		for k := 0; k < 8; k++ {
+			before := n.height
+			n.op(fmt.Sprintf("R %d", n.lastTS), func() { n.d.Reset(n.lastTS) })
+			if n.height == before {
+				break
+			}
+		}
 	}
 	for _, n := range nodes {
 		before := n.height
